@@ -130,12 +130,13 @@ def run (j : Json) : Except String Json := do
   let wantPos := (fieldD j "wantPos" (Json.bool false)) == Json.bool true
   -- "pre": that many manual step_simulation calls before the blocking start_simulation (mixed driving)
   let pre := match (fieldD drive "pre" (Json.num 0)).getNat? with | .ok k => k | .error _ => 0
-  let mut w := Sim.init cfg P
   -- "prestart": requests issued through the providers after build() and before the first step
+  let mut before : Array (Nat × Prog Float Unit) := #[]
   for row in (← (fieldD j "prestart" (Json.arr #[])).getArr?) do
     let pn ← (← field row "n").getNat?
     let reqs ← (← (← field row "reqs").getArr?).toList.mapM rspecOfJson
-    w := (Sim.runProg cfg pn (progOf reqs) w).1
+    before := before.push (pn, progOf reqs)
+  let mut w := Sim.initWith cfg P before.toList
   let mut rets : Array Json := #[]
   let mut poss : Array Json := #[]
   let mut exhausted := false
